@@ -220,3 +220,58 @@ REGISTRY["C12"] = {
                             "batches.sized_for_boundary": 50, "truncations.inside_a_frame": 5000,
                             "durability.appends_checked": 3000},
 }
+
+# ------------------------------------------------------------------------------------------- C13
+def _c13_job(tier):
+    j = job("manifest", "c13", shards=16, timeout=1500, cases=q(tier, 150, 4000), trunc_cases=q(tier, 2, 20),
+            crash_cases=q(tier, 2, 25), crash_points=q(tier, 60, 100000))
+    j["needs_shim"] = True
+    return j
+
+
+REGISTRY["C13"] = {
+    "level": "fault_enumeration",
+    "technique": "runtime monitors: Manifest state vs a BTreeSet/BTreeMap model over generated edit sequences and reopen points; fragment-chain checker; swept truncation lengths; crash-point sweep of a deterministic child under the system-call shim (persistence models a and b); cross-process lock probe",
+    "level_text": ("Fault enumeration: every truncation length of MANIFEST for the swept cases; every (quick: up to 60 "
+                   "spread) crash point among the watched calls of apply/rollover histories, under both persistence "
+                   "models, each image reopened and compared with the prefix states; plus exploration of edit sequences."),
+    "level_note": "Trusted: LD_PRELOAD shim sees every mutating call of the child (cross-checked by a non-zero call count and exit code 77 at the chosen point); the child history is deterministic (same seed => same call sequence).",
+    "rule": ("sequence case = 3-28 edits (adds/removes/info, empty edits, add+remove of one string, re-adds; hostile "
+             "strings: empty, spaces, +/- and separator look-alikes, CR, non-ASCII, NUL, 1.5 KB) with rollover ratio "
+             "in {1,2,8} and random clean reopen points: in-memory and reopened state == model, fragments chain, "
+             "Manifest::verify silent. truncation case = every cut of MANIFEST: reopen gives a prefix state or an "
+             "explicit corruption error. crash case = child killed before watched call n (models a,b): reopen gives "
+             "state[acked] or state[acked+1] (if an edit was in flight) or a corruption error; recovered manifest "
+             "accepts another edit. Non-trivial = sequence with >=1 rollover; sweep with cuts inside a line / crash "
+             "points inside an edit. distinct = hash of the sequence."),
+    "assumptions": ["an edit the API rejects is simply not applied to the model", "directory-entry durability is outside the two persistence models"],
+    "exhaustive": lambda tier, counters: False,
+    "jobs": lambda tier: [_c13_job(tier)],
+    "floors": lambda tier: {"distinct_nontrivial": 500, "rollovers": 1000, "truncations.inside_a_line": 3000,
+                            "crash.points": 1000, "crash.points_model_b": 500, "lock_probes": 8},
+}
+
+# ------------------------------------------------------------------------------------------- C18
+REGISTRY["C18"] = {
+    "level": "exploration",
+    "technique": "runtime monitors over recorded histories: coalescing-queue calls (invoke/return stamps, outputs) vs the core's observed batches; deadlock predicate from /proc thread states; wait-list and LRU programs vs sequential models",
+    "level_text": ("Exploration: 2-15 threads x 50-450 calls per queue run with accept-all / limit-k / refuse-all cores of "
+                   "varying work time; sampled schedules only. Wait-list programs of link / unlink-in-any-order / "
+                   "notify / store / swap with invariants after every step, plus a run with all 65 536 slots linked. "
+                   "LRU programs over all five operations with arbitrary sizes and capacities incl. 0."),
+    "level_note": "Trusted: the recording core, the logical clock, the sequential models in harness/src/c18.rs; entry order is judged by real-time order (call A returned before call B was invoked) and per-thread program order.",
+    "rule": ("queue run = one multi-threaded run: own output, exactly-once, batch limits, order, no deadlock (all "
+             "workers asleep with no completion across three one-second samples). wait-list program = 20-220 random "
+             "steps checked against a BTreeMap model (is_head exactly at the lowest linked index, count, iter, "
+             "get_waiter, values). LRU program = 20-320 steps against a recency-queue model (overwrite-refresh "
+             "reading calibrated from the implementation, both accepted): lookups, pops, accounted size, capacity. "
+             "Non-trivial = queue run with a batch of >=2, wait-list program with an out-of-order unlink, LRU "
+             "program with >=1 eviction. distinct = hash of the program / run shape."),
+    "assumptions": ["whether overwriting refreshes recency is not stated: the implementation's behaviour is calibrated once and either reading is accepted"],
+    "jobs": lambda tier: [
+        job("sync", "c18", shards=16, timeout=1500, queue_runs=q(tier, 6, 150), waitlist_programs=q(tier, 150, 5000),
+            lru_programs=q(tier, 400, 20000), full=1),
+    ],
+    "floors": lambda tier: {"distinct_nontrivial": 2000, "queue.batches_of_2_or_more": 2000,
+                            "waitlist.full_list_probes": 8, "lru.evictions": 10000, "waitlist.steps": 50000},
+}
